@@ -405,7 +405,7 @@ Lemma float_in_range_lemma : forall m M s str v K,
   dcoef s <> 0%N -> dneg s = false -> dval m <= dval M ->
   rep6 (dval m) -> rep6 (dval M) -> rep6 (dval M - dval m) ->
   (0 <= K < 10 ^ 6)%Z -> dval M - dval m == inject_Z K * dval s ->
-  exists res, check_convert FFloat (Some m) (Some M) (Some s) str (RFin v) = Ok (VDec res) /\
+  exists res, ideal_convert FFloat (Some m) (Some M) (Some s) str (RFin v) = Ok (VDec res) /\
               dval m <= dval res <= dval M.
 Proof.
   intros m M s str v K Hs Hsn Hle RO RM RW HK HW.
@@ -428,13 +428,13 @@ Lemma int_dec_path_in_range_lemma : forall f m M s str v K zm zM,
   dval m == inject_Z zm -> dval M == inject_Z zM ->
   rep6 (dval m) -> rep6 (dval M) -> rep6 (dval M - dval m) ->
   (0 <= K < 10 ^ 6)%Z -> dval M - dval m == inject_Z K * dval s ->
-  exists z, check_convert f (Some m) (Some M) (Some s) str (RFin v) = Ok (VInt z) /\ (zm <= z <= zM)%Z.
+  exists z, ideal_convert f (Some m) (Some M) (Some s) str (RFin v) = Ok (VInt z) /\ (zm <= z <= zM)%Z.
 Proof.
   intros f m M s str v K zm zM Hf Hs Hsn Hle Hni Em EM RO RM RW HK HW.
-  assert (Hcc : check_convert f (Some m) (Some M) (Some s) str (RFin v) = convert_number f (Some m) (Some M) (Some s) (RFin v))
+  assert (Hcc : ideal_convert f (Some m) (Some M) (Some s) str (RFin v) = ideal_number f (Some m) (Some M) (Some s) (RFin v))
     by (destruct f; try discriminate; reflexivity).
-  rewrite Hcc. unfold convert_number. destruct (dcoef s =? 0)%N eqn:E; [lia|].
-  unfold snap. rewrite Hf.
+  rewrite Hcc. unfold ideal_number. destruct (dcoef s =? 0)%N eqn:E; [lia|].
+  unfold ideal_snap. rewrite Hf.
   replace (true && is_integral HalfUp (clamp (Some m) (Some M) v) && is_integral HalfUp m && is_integral HalfUp s) with false
     by (simpl; symmetry; exact Hni).
   set (c := clamp (Some m) (Some M) v) in *.
